@@ -313,6 +313,7 @@ class NumpyMixin:
         m['inf'] = SV(NUM, th.PInf)
         m['hypot'] = ufunc2(th.num_hypot, out='num', name='hypot')
         m['isnan'] = ufunc1(lambda x: th.is_nan(x), 'bool', name='isnan')
+        m['isclose'] = ufunc2(th.num_isclose, name='isclose')      # default tolerances only: keywords make the model undecided (signature mismatch)
         m['less'] = ufunc2(th.num_lt, name='less')
         m['less_equal'] = ufunc2(th.num_le, name='less_equal')
         m['greater'] = ufunc2(lambda x, y: th.num_lt(y, x), name='greater')
